@@ -848,6 +848,22 @@ def C17_attrsOK (s : State) (c : Call) (r : Response) (s' : State) : Bool :=
       | _, _ => false)
    | .modify _ _ _ _ _ _ _ _ => true)
 
+/-- C17, fees of a match: what the response reports as `ask_fee` / `bid_fee` was really paid to
+    the configured fee accounts (a non-zero reported fee without a configured account, or
+    without a payment of at least that amount to it, is an untruthful report) -/
+def C17_feesPaidOK (contract : String) (s : State) (bidId : String) (r : Response) : Bool :=
+  match loadBid s bidId, numAttr r.attrs "ask_fee", numAttr r.attrs "bid_fee" with
+  | some b, some af, some bf =>
+    (af == 0 ||
+      (match s.info.askFee with
+       | some fi => decide (credit contract r.msgs fi.account b.quote.denom ≥ af)
+       | none => false)) &&
+    (bf == 0 ||
+      (match s.info.bidFee with
+       | some fi => decide (credit contract r.msgs fi.account ((b.fee.map (·.denom)).getD b.quote.denom) ≥ bf)
+       | none => false))
+  | _, _, _ => false
+
 /-! ### attribute-driven shadow book (C17) -/
 
 inductive ShadowCls | basic | pending | ready
